@@ -346,6 +346,60 @@ func genCall(w *bufio.Writer, r *rng, id int, c genCfg, reps int, kind string) {
 	emitCall(w, sc, id, reps, kind, "")
 }
 
+// genSubChain: one name under two subtypes within one call. The caller supplies name/have only; a two-input converter
+// needs X and name/want; X is one conversion away from name/have, name/want only a longer chain away
+// (name/have -> Z -> name/want). Whatever was learnt about the name under one subtype while X was resolved must not
+// be handed over under the other.
+func genSubChain(r *rng, c genCfg) *scenario {
+	sc := &scenario{errOwner: map[int]int{}}
+	p := r.perm(7)
+	tA, tX, tZ, tY := p[0], p[1], p[2], p[3]
+	name := c.names[r.intn(len(c.names))]
+	subs := []string{"foo", "bar", "x"}
+	i := r.intn(3)
+	have, want := subs[i], subs[(i+1+r.intn(2))%3]
+	if r.chance(1, 4) {
+		have = "" // the supplied value carries no subtype at all
+	}
+	y := lab{Ty: tY}
+	if r.chance(1, 2) {
+		y.Name = "res"
+	}
+	target := &fnSpec{ID: 0, Ins: []lab{y}, Script: "ok", OForm: "pos", Outs: []lab{{Ty: r.intn(4)}}, Dyn: []int{-1}}
+	target.Form = formFor(r, c, target.Ins)
+	sc.Funcs = append(sc.Funcs, target)
+	a := lab{Name: name, Ty: tA, Sub: have}
+	kind := "namedsub"
+	if have == "" {
+		kind = "named"
+	}
+	sc.Opts = append(sc.Opts, optSpecC{Kind: kind, Name: name, Ty: tA, Sub: have, Vid: 1})
+	x, z := lab{Ty: tX}, lab{Ty: tZ}
+	if r.chance(1, 2) {
+		x.Name, z.Name = "px", "pz"
+	}
+	fs := []*fnSpec{
+		c.newConv(r, sc, []lab{x}, []lab{a}),
+		c.newConv(r, sc, []lab{z}, []lab{a}),
+		c.newConv(r, sc, []lab{{Name: name, Ty: tA, Sub: want}}, []lab{z}),
+	}
+	ins := []lab{x, {Name: name, Ty: tA, Sub: want}}
+	if r.chance(1, 2) {
+		ins[0], ins[1] = ins[1], ins[0]
+	}
+	fs = append(fs, c.newConv(r, sc, []lab{y}, ins))
+	for _, j := range r.perm(len(fs)) {
+		f := fs[j]
+		f.Script, f.Once = "ok", false
+		k := "convfunc"
+		if f.Form != "built" && f.OForm != "built" && r.chance(1, 2) {
+			k = "conv"
+		}
+		sc.Opts = append(sc.Opts, optSpecC{Kind: k, Fids: []int{f.ID}})
+	}
+	return sc
+}
+
 func emitCall(w *bufio.Writer, sc *scenario, id, reps int, kind, extra string) {
 	if err := sc.buildAll(); err != nil {
 		fmt.Fprintf(w, "scn %s %d builderr\nbuilderr %s\nend\n", kind, id, strings.ReplaceAll(err.Error(), "\n", " "))
